@@ -1,6 +1,8 @@
 use crate::engine::Runner;
 
 pub mod alloc_sm;
+pub mod c02;
+pub mod c04;
 pub mod c12;
 pub mod c13;
 pub mod c14;
@@ -13,12 +15,16 @@ pub mod c20;
 pub mod c21;
 pub mod c22;
 pub mod c24;
+pub mod c25;
 pub mod c29;
+pub mod progcase;
 
 pub type CheckFn = fn(&mut Runner);
 
 pub fn registry() -> Vec<(&'static str, CheckFn)> {
     vec![
+        ("C02", c02::run as CheckFn),
+        ("C04", c04::run as CheckFn),
         ("C12", c12::run as CheckFn),
         ("C13", c13::run as CheckFn),
         ("C14", c14::run as CheckFn),
@@ -31,6 +37,7 @@ pub fn registry() -> Vec<(&'static str, CheckFn)> {
         ("C21", c21::run as CheckFn),
         ("C22", c22::run as CheckFn),
         ("C24", c24::run as CheckFn),
+        ("C25", c25::run as CheckFn),
         ("C29", c29::run as CheckFn),
     ]
 }
